@@ -287,6 +287,13 @@ def shapes(tier):
     L.append(("flat_map-outer", Q, lambda S: S().pipe(ops.flat_map(lambda x: reactivex.of(x))), lambda it: it, True, True))
     L.append(("concat", Q, lambda S: reactivex.of(70, 80).pipe(ops.concat(S())), lambda it: itertools.chain((70, 80), it), True, False))
     L.append(("concat-factory", T, lambda S: reactivex.concat(reactivex.of(70, 80), S()), lambda it: itertools.chain((70, 80), it), True, False))
+    # ordered concatenation through merge(max_concurrent=1): the infinite inner waits in the queue and is subscribed only when
+    # the finite one completes (statement: "merge/flat_map, concat")
+    L.append(("merge-mc1-queued", Q, lambda S: reactivex.of("f", "i").pipe(ops.map(lambda k: reactivex.of(70, 80) if k == "f" else S()), ops.merge(max_concurrent=1)),
+              lambda it: itertools.chain((70, 80), it), True, False))
+    if hasattr(ops, "concat_map"):
+        L.append(("concat_map-queued", T, lambda S: reactivex.of("f", "i").pipe(ops.concat_map(lambda k: reactivex.of(70, 80) if k == "f" else S())),
+                  lambda it: itertools.chain((70, 80), it), True, False))
     L.append(("switch_map", Q, lambda S: reactivex.of("o").pipe(ops.switch_map(lambda _: S())), lambda it: it, True, False))
     L.append(("switch_map2", T, lambda S: reactivex.of("o", "p").pipe(ops.switch_map(lambda _: S())), lambda it: it, False, False))
     L.append(("share", Q, lambda S: S().pipe(ops.share()), lambda it: it, True, False))
